@@ -242,7 +242,11 @@ func (e *env) addRes(kind string, i int) {
 				}
 				return true
 			}
-			if !w.Await(agreed, time.Minute) {
+			agreeBound := time.Minute
+			if w.Config().StallProb > 0 {
+				agreeBound = 10 * time.Minute // stalled senders: "eventually" only
+			}
+			if !w.Await(agreed, agreeBound) {
 				var got []string
 				for k := 1; k < 3; k++ {
 					var rep resources.TwoPCResponse
@@ -296,9 +300,15 @@ func (e *env) addRes(kind string, i int) {
 		// before the broadcast and promises nothing)
 		e.preDone = append(e.preDone, func() {
 			want := m.Committed
-			ok := w.Await(func() bool { return peer.lastOwn == want || peer.gone }, 20*interval+3*time.Second)
+			bound := 20*interval + 3*time.Second
+			if w.Config().StallProb > 0 {
+				// injected stalls (up to 2 s each, at any yield of the broadcaster, the RPC handler,
+				// the merger or the reader) never stop in this check: only "eventually" can be judged
+				bound = 10 * time.Minute
+			}
+			ok := w.Await(func() bool { return peer.lastOwn == want || peer.gone }, bound)
 			if !ok && !w.Failed() {
-				w.Fail("crdt_update_not_delivered", "the peer of %s reads %d for A's part %v after A's last section; A's committed increments sum to %d | %s", name, peer.lastOwn, 20*interval+3*time.Second, want, e.describe())
+				w.Fail("crdt_update_not_delivered", "the peer of %s reads %d for A's part %v after A's last section; A's committed increments sum to %d | %s", name, peer.lastOwn, bound, want, e.describe())
 			}
 		})
 	case "mbox_out":
